@@ -64,6 +64,25 @@ def stmt(rng, ints, bools, profile="full", lhs=None):
         if k == "assignv":
             return {"op": "assign", "x": rng.choice(W), "e": {"k": rng.randint(-2, 2), "t": [[rng.choice([1, 1, -1]), rng.choice(ints)]]}}
         return {"op": "havoc", "x": rng.choice(W)}
+    if profile == "bwd":
+        # backward-analysis profile (C11): invertible and NON-invertible assignments: division and multiplication by
+        # small constants of either sign, x := x + k with x on both sides, select, assumes with bounds at -1, 0, 1
+        k = rng.choice(["sdivk"] * 3 + ["mulk"] * 2 + ["addk"] * 2 + ["assign", "assume", "assume", "havoc", "select"])
+        kc = lambda: rng.choice([-4, -3, -2, 2, 3, 4])
+        if k == "sdivk":
+            return {"op": "arith", "f": "sdiv", "x": rng.choice(W), "y": rng.choice(ints), "zk": 1, "z": kc()}
+        if k == "mulk":
+            return {"op": "arith", "f": "mul", "x": rng.choice(W), "y": rng.choice(ints), "zk": 1, "z": rng.choice([-2, -1, 2, 3])}
+        if k == "addk":
+            v = rng.choice(W)
+            return {"op": "arith", "f": rng.choice(["add", "sub"]), "x": v, "y": rng.choice([v, rng.choice(ints)]), "zk": 1, "z": rng.randint(-2, 2)}
+        if k == "assign":
+            return {"op": "assign", "x": rng.choice(W), "e": le(rng, ints)}
+        if k == "assume":
+            return {"op": "assume", "c": {"e": {"k": rng.choice([-1, 0, 1]), "t": [[rng.choice([1, -1]), rng.choice(ints)]]}, "r": rng.choice(["le", "lt", "eq", "ne"])}}
+        if k == "havoc":
+            return {"op": "havoc", "x": rng.choice(W)}
+        return {"op": "select", "x": rng.choice(W), "c": cst(rng, ints), "e1": le(rng, ints, maxterms=1), "e2": le(rng, ints, maxterms=1)}
     if profile == "c17":
         # statements that change magnitudes by at most a constant (no var+var, no multiplication): executions
         # of bounded length cannot leave the universe (needed by spec/Transform.tla, spec/NonInterf.tla)
@@ -263,6 +282,40 @@ def chain_history(rng, hid, n=40, params=None):
     # r1 := a bounded start value
     for v in ints:
         steps.append({"op": "stmt", "r": 1, "s": {"op": "assign", "x": v, "e": {"k": rng.randint(-2, 2), "t": []}}})
+    alternate = rng.random() < 0.4
+    if alternate:
+        # only ONE bound is relaxed per step, alternately for two variables tied by a stable |a-b| <= 1
+        # (a closed left operand of the zones widening would re-derive the dropped bound at every step)
+        a, b = rng.sample(ints, 2)
+        pq = [0, 0]
+        lows = rng.random() < 0.5     # stable lower bounds as well
+        d = rng.choice([1, 1, 2])
+
+        def value(r):
+            steps.append({"op": "top", "r": r, "inplace": 0})
+            for (u, w_) in ((a, b), (b, a)):
+                steps.append({"op": "stmt", "r": r, "s": {"op": "assume", "c": {"e": {"k": -d, "t": [[1, u], [-1, w_]]}, "r": "le"}}})
+            steps.append({"op": "stmt", "r": r, "s": {"op": "assume", "c": {"e": {"k": -pq[0], "t": [[1, a]]}, "r": "le"}}})
+            steps.append({"op": "stmt", "r": r, "s": {"op": "assume", "c": {"e": {"k": -pq[1], "t": [[1, b]]}, "r": "le"}}})
+            if lows:
+                for u in (a, b):
+                    steps.append({"op": "stmt", "r": r, "s": {"op": "assume", "c": {"e": {"k": -3, "t": [[-1, u]]}, "r": "le"}}})
+        del steps[:]
+        value(1)          # the start value has the same shape as the values joined in later
+        for i in range(1, n + 1):
+            pq[i % 2] += rng.choice([1, 2]) if d == 1 else 2
+            value(2)
+            w = {"op": "widenjoin", "r": 3, "a": 1, "b": 2}
+            if ts is not None:
+                w["ts"] = ts
+            steps.append(w)
+            steps.append({"op": "leq", "r": 0, "a": 3, "b": 1, "chain": 1})
+            steps.append({"op": "copy", "r": 1, "a": 3})
+        # constraints a (weakly relational) domain can hold over {a, b}: 4 unary, 2 differences, 4 more octagonal
+        h = {"id": hid, "vars": vars_, "nregs": 3, "steps": steps, "stutter": 0, "chain": 1, "ncons": 10}
+        if params:
+            h["params"] = params
+        return h
     for i in range(1, n + 1):
         steps.append({"op": "top", "r": 2, "inplace": 0})
         for v in ints:
@@ -287,10 +340,18 @@ def chain_history(rng, hid, n=40, params=None):
         steps.append(w)
         steps.append({"op": "leq", "r": 0, "a": 3, "b": 1, "chain": 1})
         steps.append({"op": "copy", "r": 1, "a": 3})
-    h = {"id": hid, "vars": vars_, "nregs": 3, "steps": steps, "stutter": 0, "chain": 1}
+    # over 3 variables: 6 unary, 6 differences, 12 more octagonal constraints
+    h = {"id": hid, "vars": vars_, "nregs": 3, "steps": steps, "stutter": 0, "chain": 1, "ncons": 24}
     if params:
         h["params"] = params
     return h
+
+
+def chain_cap(h):
+    """bound on the strict increases of a chain: every constraint the domain can hold over the variables of the chain
+    is relaxed at most once per threshold and dropped at most once (independent of how far the joined-in values grow)"""
+    nts = max([len(st.get("ts") or []) for st in h["steps"]] + [0])
+    return h["ncons"] * (1 + nts)
 
 
 def _vars4():
